@@ -3,7 +3,7 @@
    waitForConnection's critical section, the wait on the sequence's channel or the caller's context, the command
    function under the retry helper, the io.EOF re-loop) and the command monitor of ConnProps.v. *)
 From FMP Require Import Base.Bytes Base.Lts Model.Connection Model.ConnProps Model.ConnCfg Proofs.ConnProofs Proofs.ConnCfgProofs.
-From FMP Require Import Model.Paths Proofs.PathProofs.
+From FMP Require Import Model.Paths Proofs.PathsC15.
 Open Scope Z_scope.
 
 (* on every trace, under every schedule: a command function runs only once a client has been published by a Finalize
